@@ -36,6 +36,13 @@ pub fn gramset(t: &TextOwn) -> BTreeSet<[char; 3]> {
 
 /// (base, mark) -> composed, for the pairs the language itself reports. Deriving the inventory
 /// from the language keeps C02/C15 sound if a language gains a pair.
+pub fn compose_table_for(code: &str) -> &'static BTreeMap<(char, char), char> {
+    use std::sync::OnceLock;
+    static T: OnceLock<Vec<(&'static str, BTreeMap<(char, char), char>)>> = OnceLock::new();
+    let all = T.get_or_init(|| crate::gen::LANGS.iter().map(|c| (*c, compose_table(&crate::gen::lang_of(c)))).collect());
+    &all.iter().find(|(c, _)| *c == code).expect("lang").1
+}
+
 pub fn compose_table(l: &Lang) -> BTreeMap<(char, char), char> {
     let mut t = BTreeMap::new();
     let bases: Vec<char> = "abcdefghijklmnopqrstuvwxyzABCDEFGHIJKLMNOPQRSTUVWXYZабвгдеёжзийклмнопрстуфхцчшщъыьэюяАБВГДЕЁЖЗИЙКЛМНОПРСТУФХЦЧШЩЪЫЬЭЮЯ".chars().collect();
